@@ -1546,6 +1546,10 @@ class Console:
             """Escape html."""
             return text.replace("&", "&amp;").replace("<", "&lt;").replace(">", "&gt;")
 
+        def escape_attribute(text: str) -> str:
+            """Escape text for use inside a double quoted attribute."""
+            return escape(text).replace('"', "&quot;")
+
         render_code_format = CONSOLE_HTML_FORMAT if code_format is None else code_format
 
         with self._record_buffer_lock:
@@ -1558,7 +1562,7 @@ class Console:
                         rule = style.get_html_style(_theme)
                         text = f'<span style="{rule}">{text}</span>' if rule else text
                         if style.link:
-                            text = f'<a href="{style.link}">{text}</a>'
+                            text = f'<a href="{escape_attribute(style.link)}">{text}</a>'
                     append(text)
             else:
                 styles: Dict[str, int] = {}
@@ -1572,7 +1576,7 @@ class Console:
                             style_number = styles.setdefault(rule, len(styles) + 1)
                             text = f'<span class="r{style_number}">{text}</span>'
                         if style.link:
-                            text = f'<a href="{style.link}">{text}</a>'
+                            text = f'<a href="{escape_attribute(style.link)}">{text}</a>'
                     append(text)
                 stylesheet_rules: List[str] = []
                 stylesheet_append = stylesheet_rules.append
